@@ -39,7 +39,19 @@ def run(c: Check):
                  name="2 profiles, 3 devices, 2 linked IPs, 5 mutations")
     behs = c.tlc_sim("ProfileDB", "ProfileDB_sim.cfg", num=400 if th else 60, depth=60 if th else 45)
     inp = os.path.join(c.scratch, "c14_behs.json")
-    json.dump([[{"a": s["a"], "d": s["d"], "p": s["p"], "k": s["k"]} for s in b] for b in behs], open(inp, "w"))
+    steps = [[{"a": s["a"], "d": s["d"], "p": s["p"], "k": s["k"]} for s in b] for b in behs]
+    # a few directed histories on top of the generated ones (judged by the same trace specification): situations
+    # that seeded changes needed and that random generation reaches only now and then
+    def st(a, d="", p="", k=""):
+        return {"a": a, "d": d, "p": p, "k": k}
+    for d, p, q in (("d1", "p1", "p2"), ("d2", "p2", "p1")):
+        # (the harness obstructs the cache file at every world's 2nd, 6th, ... full sync: the empty one is the 4th)
+        steps.append([st("FullSync"), st("FullSync"), st("Attach", d, p), st("FullSync"), st("Detach", d), st("FullSync"), st("Restart"), st("LookupDev", d),
+                      st("Attach", d, q), st("PartialSync"), st("Restart")])
+        steps.append([st("SetHuman", d, k="h1"), st("Attach", d, p), st("FullSync"), st("MoveQuiet", d, q), st("PartialSync"),
+                      st("LookupHuman", p=p, k="h1"), st("LookupHuman", p=q, k="h1"), st("RunCleanup", "human", p, "h1"),
+                      st("Move", d, p), st("PartialSync"), st("LookupHuman", p=q, k="h1")])
+    json.dump(steps, open(inp, "w"))
     out, _ = c.go_harness("internal/profiledb", "^TestVerifC14Stepper$", rewrites=overlay(c),
                           env={"VERIF_IN": inp, "VERIF_NRANDOM": 3000 if th else 250}, files=["c14_test.go"])
     ev = read_ndjson(out)
